@@ -9,13 +9,36 @@ from .prng import RecSHA256, RecRandomState, Draws
 ALTS = ["greater", "less", "two-sided"]
 
 
+SLACK = 0.0     # absolute slack for data on a large baseline (set per case by compare_recorded from p["offset"], see apply_offset)
+
+
 def close(x, q, rel=1e-9, ab=0.0):
     """float x agrees with the exact rational q — *relative* tolerance only (data may be scaled by
     2^-40), an exact zero must come out as an exact zero unless an absolute slack is asked for"""
     xf, qf = float(x), float(q)
+    ab = ab + SLACK
     if q == 0:
         return abs(xf) <= ab
     return abs(xf - qf) <= ab + rel * abs(qf)
+
+
+def apply_offset(p, rng, name):
+    """put the data on a large baseline (2^20 .. 2^30 plus the small values; exact in doubles and in the model): formulas that are
+    algebraically equal to the documented statistic but cancel catastrophically (sum of squares minus n*mean^2, ...) only show
+    far from zero.  Only for statistics whose documented form is stable there (differences of means, between-group sums of
+    squares of centred means, linear statistics); comparisons then get an absolute slack of a few hundred ulps of the baseline
+    times the spread of the data, which a cancelling formula exceeds by many orders of magnitude."""
+    ok = (name in ("two_sample", "stratified_two_sample") and p.get("stat") in ("mean",)) or (name == "k_sample" and p.get("stat") == "anova")
+    if not ok or p.get("scale", 1.0) != 1.0 or p.get("noscale") or rng.random() >= 0.3:
+        return
+    base = float(rng.choice([2**24, 2**30, 2**30, 2**36]))
+    keys = [k for k in ("x", "y", "resp") if p.get(k) is not None]
+    spread = max(abs(v) for k in keys for v in p[k]) + 1.0
+    n = sum(len(p[k]) for k in keys)
+    for k in keys:
+        p[k] = [v + base for v in p[k]]
+    p["offset"] = base
+    p["slack"] = 256 * n * spread * base * 2.0 ** -52
 
 
 SCALES = [1.0] * 8 + [2.0 ** -20, 2.0 ** -40, 2.0 ** 30]
@@ -63,7 +86,10 @@ def pick_reps(rng, small=12):
 
 def pick_n(rng, lo, hi, big=25):
     """mostly small sizes, sometimes larger ones"""
-    return rng.randint(lo, hi) if rng.random() < 0.88 else rng.randint(hi + 1, big)
+    u = rng.random()
+    if u < 0.02:
+        return rng.choice([31, 32, 33, 64, 65, 129, 257])      # lengths on and just past powers of two
+    return rng.randint(lo, hi) if u < 0.88 else rng.randint(hi + 1, big)
 
 
 def weights(rng, n):
@@ -140,6 +166,9 @@ def dec(p, a):
 def arr(p, key):
     """the caller's array for p[key]: float64, or int64 when requested and every value is integral"""
     v = p[key]
+    if p.get("container") in ("list", "tuple"):      # plain Python sequences (functions documented as taking array-likes)
+        seq = [float(t) for t in v]
+        return seq if p["container"] == "list" else tuple(seq)
     if p.get("intdtype") and all(float(t).is_integer() and abs(t) < 2**40 for t in v):
         return POOL.get(key, [int(t) for t in v], np.int64)
     return POOL.get(key, v, float)
@@ -324,6 +353,7 @@ def bracket_check(pval, alt, c, reps, mdist, mobs, margs=None, obs_args=None, to
     every simulated value against the observed one, ties (exact or within 1e-9) going either way unless
     the rearranged arrays are identical to the observed ones"""
     gt = lt = eq = eqid = 0
+    floor = floor + Fr(SLACK)
     for i, v in enumerate(mdist):
         if abs(v - mobs) <= tol * max(abs(v), abs(mobs)) + floor:
             eq += 1
@@ -641,6 +671,8 @@ def strat_design(rng):
     """group / condition vectors with unequal and singleton strata and unbalanced conditions"""
     ng = rng.randint(1, 3) if rng.random() < 0.2 else rng.randint(2, 3)
     sizes = [rng.choice([1, 2, 2, 3, 4]) for _ in range(ng)]
+    if rng.random() < 0.02:
+        sizes[rng.randrange(ng)] = rng.choice([17, 32, 33, 65])   # one long stratum
     if sum(sizes) < 3:
         sizes[0] += 2
     group, cond = [], []
@@ -880,6 +912,7 @@ class StratTwoSample(Fn):
 
 FUNCS = {f.name: f for f in [TwoSample(), TwoSampleShift(), OneSample(), Corr(), Spearman(), KSample(), Bivariate(),
                              StratPerm(), SimCorr(), StratTwoSample()]}
+LIST_OK = ("two_sample", "one_sample", "corr", "spearman_corr")     # accept plain lists / tuples on the unchanged tree
 UNSTRAT = ["two_sample", "two_sample_shift", "one_sample", "corr", "spearman_corr", "k_sample"]
 STRAT = ["stratified_permutationtest", "stratified_two_sample", "sim_corr", "bivariate_k_sample"]
 
@@ -924,6 +957,11 @@ def run_recorded(ctx, names, per_fn, site_prefix="", presets=None):
                 p["ret"] = ctx.rng.choice(["np", "np", "float", "int"])
                 p["intdtype"] = ctx.rng.random() < 0.25
                 p["lab"] = ctx.rng.choice(LABEL_KINDS)
+                apply_offset(p, ctx.rng, name)
+                if p.get("offset"):
+                    ctx.count("data-on-a-large-baseline")
+                if name in LIST_OK and ctx.rng.random() < 0.08:
+                    p["container"] = "list"; ctx.count("python-sequence-inputs")
             g, gkind, gseed = mk_generator(ctx.rng)
             r, seen = fn.call(p, g)
             det = {"call": name, "params": p, "generator": gkind, "seed": gseed}
@@ -943,11 +981,16 @@ def run_recorded(ctx, names, per_fn, site_prefix="", presets=None):
 
 
 def compare_recorded(ctx, ops, meta, outs, block):
+    global SLACK
     agree = True
     for o, (fn, p, ret, seen, det) in zip(outs, meta):
         if o.startswith("bad-op"):
             raise RuntimeError("driver rejected: " + o + " for " + str(det)[:300])
-        probs = fn.compare(p, ret, seen, o)
+        SLACK = float(p.get("slack", 0.0))
+        try:
+            probs = fn.compare(p, ret, seen, o)
+        finally:
+            SLACK = 0.0
         if "SKIP-nonfinite" in probs:
             ctx.count("skipped-nonfinite-statistic"); continue
         if probs:
@@ -969,7 +1012,7 @@ def nan_strat_block(ctx, ncases, block="stratified_two_sample-NaN-model-vs-impl"
         for i in ctx.rng.sample(range(n), ctx.rng.randint(1, max(1, (n + 1) // 2))):
             resp[i] = nan
         p = {"group": group, "cond": cond, "resp": resp, "reps": pick_reps(ctx.rng, 10), "alt": ctx.rng.choice(ALTS),
-             "plus1": ctx.rng.random() < 0.5, "keep": ctx.rng.random() < 0.6, "stat": "mean", "w": [0] * n,
+             "plus1": ctx.rng.random() < 0.5, "keep": ctx.rng.random() < 0.6, "stat": ctx.rng.choice(["mean", "mean", "t"]), "w": [0] * n,
              "lab": ctx.rng.choice(LABEL_KINDS), "intdtype": False, "ret": "np"}
         g, gkind, gseed = mk_generator(ctx.rng)
         with np.errstate(all="ignore"):
@@ -979,7 +1022,7 @@ def nan_strat_block(ctx, ncases, block="stratified_two_sample-NaN-model-vs-impl"
                 r, seen = fn.call(p, g)
         det = {"call": "stratified_two_sample", "params": {k: (["nan" if isinstance(t, float) and t != t else t for t in v] if k == "resp" else v) for k, v in p.items()},
                "generator": gkind, "seed": gseed}
-        ctx.case(("nan", repr(sorted(det["params"].items()))), True, det); ctx.count("stratified_two_sample:NaN-responses"); ctx.count("gen-" + gkind)
+        ctx.case(("nan", repr(sorted(det["params"].items()))), True, det); ctx.count("stratified_two_sample:NaN-responses:" + p["stat"]); ctx.count("gen-" + gkind)
         if r[0] != "ok":
             det.update({"issue": "call failed", "returned": r[1:]}); ctx.violation("oracle", det, site=fn.site); continue
         try:
@@ -990,11 +1033,11 @@ def nan_strat_block(ctx, ncases, block="stratified_two_sample-NaN-model-vs-impl"
         o = fn.ordering(p)
         gs = [p["group"][i] for i in o]; rs = [p["resp"][i] for i in o]
         nt = sum(1 for c in p["cond"] if c == p["cond"][o[0]])
-        ops.append(f"strat2nan|{p['alt']}|{int(p['plus1'])}|{ints(gs)}|{' '.join('nan' if t != t else rat(t) for t in rs)}|{nt}|{rows3(draws)}")
-        meta.append((p, r[1], det, tuple(None if t != t else F(t) for t in rs)))
+        ops.append(f"strat2nan|{p['alt']}|{int(p['plus1'])}|{ints(gs)}|{' '.join('nan' if t != t else rat(t) for t in rs)}|{nt}|{p['stat']}|{rows3(draws)}")
+        meta.append((p, r[1], det, tuple(None if t != t else F(t) for t in rs), nt))
     outs = run_model(ops)
     agree = True
-    for out, (p, ret, det, obs_args) in zip(outs, meta):
+    for out, (p, ret, det, obs_args, nt) in zip(outs, meta):
         if out.startswith("bad-op"):
             raise RuntimeError("driver rejected: " + out)
         f = fields(out); probs = []
@@ -1003,19 +1046,27 @@ def nan_strat_block(ctx, ncases, block="stratified_two_sample-NaN-model-vs-impl"
         mobs = opt(f["obs"]); mdist = [opt(t) for t in f["dist"].split()]
         margs = [tuple(opt(t) for t in row.split()) for row in f["args"].split(";")] if f["args"].strip() else []
         pval, obs = float(ret[0]), float(ret[1]); dist = list(ret[2]) if p["keep"] else None
+        is_t = p["stat"] == "t"
+        if is_t:
+            # arrangements whose two responder sets give a non-finite t (fewer than 3 responders in all, or no spread) are outside the domain
+            arms = [([v for v in a[:nt] if v is not None], [v for v in a[nt:] if v is not None]) for a in margs + [obs_args]]
+            if any(len(u) and len(v) and ((_const(u) and _const(v)) or len(u) + len(v) < 3) for u, v in arms):
+                ctx.count("skipped-nonfinite-statistic"); continue
+            key = lambda t: t if t != t else (1 if t >= 0 else -1) * float(t) ** 2      # the model reports sign * t^2
+            obs = key(obs); dist = [key(t) for t in dist] if dist is not None else None
         if (mobs is None) != (obs != obs):
             probs.append(f"observed statistic {obs}, model {f['obs']}")
-        elif mobs is not None and not close(obs, mobs):
+        elif mobs is not None and not close(obs, mobs, rel=(1e-7 if is_t else 1e-9), ab=(1e-9 if is_t else 1e-12)):
             probs.append(f"observed statistic {obs} != {float(mobs)}")
         if dist is not None:
-            if len(dist) != reps or any(((b is None) != (a != a)) or (b is not None and not close(a, b)) for a, b in zip(dist, mdist)):
+            if len(dist) != reps or any(((b is None) != (a != a)) or (b is not None and not close(a, b, rel=(1e-7 if is_t else 1e-9), ab=(1e-9 if is_t else 1e-12))) for a, b in zip(dist, mdist)):
                 probs.append("returned dist differs from the model's (values or NaN positions)")
         if mobs is None:
             if not close(pval, frac(f["p"]), rel=1e-12):
                 probs.append(f"NaN observed statistic: p-value {pval} != {frac(f['p'])} (nothing can be at least as extreme as NaN)")
         else:
             fin = [(v, a) for v, a in zip(mdist, margs) if v is not None]
-            probs += bracket_check(pval, p["alt"], c, reps, [v for v, _ in fin], mobs, [a for _, a in fin], obs_args)
+            probs += bracket_check(pval, p["alt"], c, reps, [v for v, _ in fin], mobs, [a for _, a in fin], obs_args, floor=(Fr(1, 10**9) if is_t else Fr(0)))
         if probs:
             agree = False
             # a disagreement on these data is a failing input for the tail-count definition (hits over the non-NaN statistics)
